@@ -14,13 +14,19 @@
    reserved, no exchange slot is occupied, the PASE marker is free, every leftover session is idle, and every session
    that carried a live exchange is still there; a legitimate attempt is served or refused with an answer (Busy), never
    left to time out.  A handshake needs two slots (the unsecured session it arrives on and the secure session it
-   reserves): the probe must succeed whenever at least two slots are free or hold idle sessions."""
+   reserves): the probe must succeed whenever at least two slots are free or hold idle sessions.
+4. Rendezvous.tla models the single-slot mDNS resolve / browse rendezvous (callers queue for the slot, place a request
+   under a drop guard, time out or are cancelled; the responder picks the request and deposits an answer); TLC checks
+   NoWedge exhaustively and emits every interleaving of two callers and the responder up to 7 operations; each is
+   replayed on the real Transport (futures polled step by step), the results are validated by TLC against the model's
+   actions, and every run ends with a fresh lookup that must be served."""
 import json, os, random
 import vlib
 from vlib import Check
 
-def wrap(ops, busy, idle=0):
-    return [{"op": "Config", "fill_busy": busy, "fill_idle": idle, "fabric": True}, {"op": "Open", "timeout": 900}] + ops + \
+def wrap(ops, busy, idle=0, expired=0):
+    pre = [{"op": "Wait", "ms": 14000 * expired}] if expired else []
+    return [{"op": "Config", "fill_busy": busy, "fill_idle": idle, "fill_expired": expired, "fabric": True}, {"op": "Open", "timeout": 900}] + pre + ops + \
            [{"op": "Wait", "ms": 70000}, {"op": "Probe", "i": 3, "tries": 3, "gap_ms": 2000}, {"op": "Wait", "ms": 70000}]
 
 def made(quick):
@@ -42,6 +48,10 @@ def made(quick):
         # complete handshakes, wrong passcodes, and retries in quick succession
         s.append(wrap([{"op": "Pase", "i": 1, "pass": "ok"}, {"op": "Pase", "i": 2, "pass": "bad"}, {"op": "Settle"}, {"op": "Pase", "i": 2, "pass": "ok"}, {"op": "Pase", "i": 1, "pass": "bad"}, {"op": "Settle"},
                        {"op": "Garbage", "i": 3, "kind": "pbkdf"}, {"op": "Pase", "i": 3, "pass": "ok", "cut": 2}, {"op": "Wait", "ms": 500}, {"op": "Pase", "i": 1, "pass": "ok"}, {"op": "Settle"}], busy))
+    # sessions whose peer stopped acknowledging (expired) but that still carry a live exchange, in a full table
+    for busy, idle, exp in ((13, 3, 2), (14, 2, 1), (12, 4, 2)):
+        s.append(wrap([], busy, idle, exp))
+        s.append(wrap([{"op": "Pase", "i": 1, "pass": "ok", "cut": 2}, {"op": "Pase", "i": 2, "pass": "ok"}, {"op": "Settle"}], busy, idle, exp))
     # the table completely full, some of it idle sessions: busy or evict, then the retry gets in
     for busy, idle in ((13, 3), (14, 2), (15, 1), (10, 6)):
         s.append(wrap([], busy, idle))
@@ -76,6 +86,26 @@ def run(tier, seed):
         sig = "C20|%s|%s" % (e.get("ev"), "probe-failed" if e.get("ev") == "ProbeEnd" else "legitimate-attempt-left-to-time-out-%s" % e.get("code") if e.get("ev") == "IniEnd" else "res%s-exch%s-marker%s-idle%s-busy%s/%s" % (e.get("n_reserved"), e.get("n_exch"), e.get("marker"), e.get("left_idle"), e.get("busy_fillers_alive"), e.get("busy_fillers")))
         ck.violation(sig, "real device: event %s (no. %d of its run) is not allowed by Layer P" % (json.dumps(e)[:400], r["at"]),
                      {"first_rejected": {"index": r["at"], "event": e}, "run": [x for x in r["run"] if x.get("ev") != "Hs"][:200], "schedule": beh[r["run_index"]] if r["run_index"] < len(beh) else None})
+    # ---- the mDNS resolve / browse rendezvous: every interleaving of two callers and the responder up to 7 operations ----
+    rvb, rg, rd = vlib.tlc_collect("C20", "Rendezvous.tla", "MCRendezvous.cfg", workers=4, timeout=900)
+    rvb = [json.loads(x) for x in sorted({json.dumps(b, sort_keys=True) for b in rvb})]
+    if len(rvb) < 5000:
+        raise vlib.ToolError("rendezvous generator produced only %d behaviours" % len(rvb))
+    rbpath = os.path.join(wd, "rv_behaviours.ndjson")
+    vlib.write_ndjson(rbpath, rvb)
+    rtpath = os.path.join(wd, "rv_trace.ndjson")
+    rsumm = vlib.harness(["c20rv", "--behaviours", rbpath, "--out", rtpath], timeout=3000)
+    rstates, rruns, rrej = vlib.validate_runs("C20", "RendezvousTrace.tla", "RendezvousTrace.cfg", rtpath)
+    for r in rrej:
+        e = r["event"]
+        if e.get("ev") == "Probe":
+            ck.violation("C20|rendezvous|%s-not-served" % r["run"][0].get("kind"), "after the callers of the %s rendezvous were cancelled / timed out, a fresh lookup is not served: %s; operations: %s" % (r["run"][0].get("kind"), json.dumps(e), json.dumps(r["run"][1:12])),
+                         {"first_rejected": {"index": r["at"], "event": e}, "run": r["run"][:40]})
+        else:
+            ck.violation("C20|rendezvous|%s-%s" % (r["run"][0].get("kind"), e.get("ev")), "the real %s rendezvous does not follow Rendezvous.tla at %s" % (r["run"][0].get("kind"), json.dumps(e)),
+                         {"first_rejected": {"index": r["at"], "event": e}, "run": r["run"][:40]})
+    ck.cov["rendezvous"] = {"model": "Rendezvous.tla / MCRendezvous.cfg (NoWedge, exhaustive)", "behaviours": len(rvb), "runs_on_real_transport": rsumm["runs"], "operations": rsumm["ops"],
+                            "trace_validation": "RendezvousTrace.tla: every operation and the real futures' results against the model's actions, plus a fresh lookup at the end of every run", "states": rstates, "rejected_runs": len(rrej)}
     ev = vlib.read_ndjson(tpath)
     # binding self-test: a reserved slot left behind must be rejected
     bad = {r["run_index"] for r in rej}
@@ -102,5 +132,5 @@ def run(tier, seed):
     ck.assumptions += ["'free again' is read as: not reserved, no exchange, and evictable on demand - an idle unsecured session lingering in the table until it is evicted counts as free (the probe with a tight table checks that it really is reclaimed)",
                        "the PASE establishment marker left behind by a cancelled handler is released by its 60 s expiry; the probe starts 70 s after the last disturbance",
                        "table sizes: the default 16-slot table with 12-15 sessions pinned by a live exchange (the smallest-configuration builds max-sessions-3.. are a cargo feature of the dependency and are not built)",
-                       "the mDNS resolve / browse rendezvous slots are covered by the model only (no initiator-side resolve in this world)"]
+                       "the mDNS resolve / browse rendezvous is driven through the public API (Exchange::resolve_operational_addrs, Transport::browse_commissionable, wait_mdns_X_request, try_deposit_mdns_X) with futures polled step by step"]
     return ck.finish()
